@@ -47,7 +47,7 @@ ASSUMPTIONS = [
 ]
 BOUNDS = {
     "quick": "G0 (3 cells): 36 creation/set orders x 18 whole splits x default@s1, 2 orders x all 54 splits x {default@s1, dense@s1, default@s0} at depth 1; depth 2 over 24 operations on 2 systems; G1 (md): 38 whole + 3 restricted splits x 3 at depth 1, depth 2 over 26 operations on 1 system",
-    "thorough": "G0: 36 orders x 54 splits x 4 (inverter, state) at depth 1, depth 2 over 36 operations on 6 systems, depth 3 over 18 operations on 1 system; G1: all 5494 splits x {default@s1, dense@s1, default@s0} on one system and x default@s1 on a second at depth 1, depth 2 over 82 operations on 2 systems",
+    "thorough": "G0: 36 orders x 54 splits x 4 (inverter, state) at depth 1, depth 2 over 36 operations on 6 systems, depth 3 over 9 operations on 1 system; G1: all 5494 splits x {default@s1, dense@s1, default@s0} on one system at depth 1, depth 2 over 82 operations on one system",
 }
 MIN_CLASSES = 4
 CHUNK = 1
@@ -87,17 +87,16 @@ def cases(tier):
             for k in range(0, len(ops), 108):
                 out.append({"sys": ["G0", vo, eo], "prefix": [], "alphabet": ops[k:k + 108], "depth": 1})
     # ---- depth 1, G1
-    g1_systems = [("abc", "abc"), ("cab", "bca")] if rich else [("bca", "cab")]
+    g1_systems = [("cab", "bca")] if rich else [("bca", "cab")]
     for vo, eo in g1_systems:
         sp = gs.all_splits("G1", vo, eo) if rich else gs.whole_splits("G1", vo, eo) + gs.restricted_samples("G1", vo, eo)
-        ncombo = 1 if (rich and (vo, eo) != g1_systems[0]) else 3
-        ops = [{"split": s, "inv": i, "state": st} for s in sp for i, st in all_combos[:ncombo]]
+        ops = [{"split": s, "inv": i, "state": st} for s in sp for i, st in all_combos[:3]]
         for k in range(0, len(ops), 120):
             out.append({"sys": ["G1", vo, eo], "prefix": [], "alphabet": ops[k:k + 120], "depth": 1})
     # ---- depth 2: all ordered pairs over the history alphabet (one case per first operation)
     if rich:
         h_systems = [("G0", vo, eo) for vo, eo in zip(PERMS, PERMS[3:] + PERMS[:3])]
-        h_systems += [("G1", "abc", "abc"), ("G1", "cab", "bca")]
+        h_systems += [("G1", "cab", "bca")]
     else:
         h_systems = [("G0", "abc", "abc"), ("G0", "cab", "bca"), ("G1", "bca", "cab")]
     for grid, vo, eo in h_systems:
@@ -107,7 +106,7 @@ def cases(tier):
     # ---- depth 3 on G0 (thorough): one case per first two operations
     if rich:
         vo, eo = "cab", "bca"
-        alpha = [{"split": s, "inv": "default", "state": "s1"} for s in gs.whole_splits("G0", vo, eo)]
+        alpha = [{"split": s, "inv": "default", "state": "s1"} for s in gs.whole_splits("G0", vo, eo)[::2]]
         for first in alpha:
             for second in alpha:
                 out.append({"sys": ["G0", vo, eo], "prefix": [first, second], "alphabet": alpha, "depth": 3})
